@@ -4,7 +4,7 @@
 import sys, os, json, shutil, re, glob
 pid, n = sys.argv[1], sys.argv[2]
 note = sys.argv[3] if len(sys.argv) > 3 else ''
-root = os.environ.get('SEEDROOT', '/tmp/seed'); tag = {'/tmp/seed': '', '/tmp/seed2': 'h', '/tmp/seed3': 'd', '/tmp/seed4': 'e', '/tmp/seed5': 'f', '/tmp/seed6': 'g', '/tmp/seed7': 'i', '/tmp/seed8': 'j', '/tmp/seed9': 'k', '/tmp/seed10': 'l', '/tmp/seed11': 'm', '/tmp/seed12': 'n', '/tmp/seed13': 'o', '/tmp/seed14': 'p', '/tmp/seed15': 'q', '/tmp/seed16': 'r', '/tmp/seed17': 's'}.get(root, 'x')
+root = os.environ.get('SEEDROOT', '/tmp/seed'); tag = {'/tmp/seed': '', '/tmp/seed2': 'h', '/tmp/seed3': 'd', '/tmp/seed4': 'e', '/tmp/seed5': 'f', '/tmp/seed6': 'g', '/tmp/seed7': 'i', '/tmp/seed8': 'j', '/tmp/seed9': 'k', '/tmp/seed10': 'l', '/tmp/seed11': 'm', '/tmp/seed12': 'n', '/tmp/seed13': 'o', '/tmp/seed14': 'p', '/tmp/seed15': 'q', '/tmp/seed16': 'r', '/tmp/seed17': 's', '/tmp/seed18': 't'}.get(root, 'x')
 src = f'{root}/{pid}/out'; ev = f'{root}/{pid}/eval{n}'
 dst = f'/verif/seeded/{pid}-{tag}{n}'
 os.makedirs(dst, exist_ok=True)
@@ -24,7 +24,7 @@ def ok(name, want_fail=False):
     failed = ('FAIL' in t)
     return (failed if want_fail else not failed)
 meta = dict(
-    property=pid, change=int(n), origin="independent sub-agent given only the property text and a scratch worktree of the repository" + ({"h": " (round 2, hard mode: asked for changes that small-scope enumeration is likely to miss)", "d": " (round 3, hard mode + diversity: asked for mechanisms other than the classic slips)", "e": " (round 4: asked to avoid every kind of change produced in rounds 1-3)", "f": " (round 5: asked to avoid every kind produced in rounds 1-4 and to go through the statement clause by clause)", "g": " (round 6: asked to avoid every kind produced in rounds 1-5)", "i": " (round 7: asked to avoid every kind produced in rounds 1-6; half of the effort on side observations)", "j": " (round 8: asked to avoid every kind produced in rounds 1-7; half of the effort on side observations)", "k": " (round 9: asked to avoid every kind produced in rounds 1-8; half of the effort on side observations)", "l": " (round 10: asked to avoid every kind produced in rounds 1-9; half of the effort on side observations)", "m": " (round 11: asked to avoid every kind produced in rounds 1-10; half of the effort on side observations)", "n": " (round 12: asked to avoid every kind produced in rounds 1-11; half of the effort on side observations)", "o": " (round 13: asked to avoid every kind produced in rounds 1-12; half of the effort on side observations)", "p": " (round 14: asked to avoid every kind produced in rounds 1-13; half of the effort on side observations)", "q": " (round 15: asked to avoid every kind produced in rounds 1-14; half of the effort on side observations)", "r": " (round 16: asked to avoid every kind produced in rounds 1-15 and to quote the clause broken; half of the effort on side observations)", "s": " (round 17: asked to avoid every kind produced in rounds 1-16 and to quote the clause broken; half of the effort on side observations)"}.get(tag, "")),
+    property=pid, change=int(n), origin="independent sub-agent given only the property text and a scratch worktree of the repository" + ({"h": " (round 2, hard mode: asked for changes that small-scope enumeration is likely to miss)", "d": " (round 3, hard mode + diversity: asked for mechanisms other than the classic slips)", "e": " (round 4: asked to avoid every kind of change produced in rounds 1-3)", "f": " (round 5: asked to avoid every kind produced in rounds 1-4 and to go through the statement clause by clause)", "g": " (round 6: asked to avoid every kind produced in rounds 1-5)", "i": " (round 7: asked to avoid every kind produced in rounds 1-6; half of the effort on side observations)", "j": " (round 8: asked to avoid every kind produced in rounds 1-7; half of the effort on side observations)", "k": " (round 9: asked to avoid every kind produced in rounds 1-8; half of the effort on side observations)", "l": " (round 10: asked to avoid every kind produced in rounds 1-9; half of the effort on side observations)", "m": " (round 11: asked to avoid every kind produced in rounds 1-10; half of the effort on side observations)", "n": " (round 12: asked to avoid every kind produced in rounds 1-11; half of the effort on side observations)", "o": " (round 13: asked to avoid every kind produced in rounds 1-12; half of the effort on side observations)", "p": " (round 14: asked to avoid every kind produced in rounds 1-13; half of the effort on side observations)", "q": " (round 15: asked to avoid every kind produced in rounds 1-14; half of the effort on side observations)", "r": " (round 16: asked to avoid every kind produced in rounds 1-15 and to quote the clause broken; half of the effort on side observations)", "s": " (round 17: asked to avoid every kind produced in rounds 1-16 and to quote the clause broken; half of the effort on side observations)", "t": " (round 18, eight properties only, ten minutes per agent)"}.get(tag, "")),
     needs_to_manifest=desc.strip()[:1500],
     confirmed=dict(demo_passes_on_unmodified_tree=ok('demo_clean'), builds=True, repository_tests_pass_with_change=ok('repo_tests'), demo_fails_with_change=ok('demo_changed', True)),
     ran=[f"tools_seed_eval.sh {pid} {n} (scratch worktree of /repo HEAD, removed afterwards): go test of the demo on the clean tree, git apply patch.diff, go build ./..., go test ./... , go test of the demo, ./check <ID> quick with VERIF_REPO=<worktree>"],
